@@ -23,18 +23,24 @@ EXTENDS RA_SqlSem, Json
 
 CONSTANTS MaxXfers, MaxMid, Emit
 
-VARIABLES ei, ef, hist, rel, final
-vars == <<ei, ef, hist, rel, final>>
+VARIABLES ei, ef, fk, hist, rel, final
+vars == <<ei, ef, fk, hist, rel, final>>
 
 Engines == {"sql", "it1", "it2"}
 FRows == <<[a |-> 0, c |-> 1], [a |-> 1, c |-> 0], [a |-> 1, c |-> 1]>>
-Env == [I |-> << <<>> >>, F |-> FRows]
+Env == [I |-> << <<>> >>, F |-> FRows, U |-> <<[a |-> 1]>>]
 
 Wrap(leaf) == IF KindOf(leaf.eng) = "sql" THEN PlainSel(leaf) ELSE leaf
 LeafI(e) == Wrap(Leaf("I", e, {}, 1, 1))
 LeafF(e) == Wrap(Leaf("F", e, {"a", "c"}, 3, 3))
+\* the second kind of fixed operand: a relation that is a join identity only by virtue of a zero-column
+\* projection of a one-row leaf (finding F30)
+UnitU(e) == ApplyUnary(Proj({}), Wrap(Leaf("U", e, {"a"}, 1, 1)), DefaultOpts)
+Fixed == IF fk = "F" THEN LeafF(ef) ELSE UnitU(ef)
+FixedRows == IF fk = "F" THEN FRows ELSE << <<>> >>
+FixedCols == IF fk = "F" THEN {"a", "c"} ELSE {}
 
-Init == /\ ei \in Engines /\ ef \in Engines
+Init == /\ ei \in Engines /\ ef \in Engines /\ fk \in {"F", "U"}
         /\ hist = <<>> /\ rel = LeafI(ei) /\ final = FALSE
 
 Transfer == /\ ~final
@@ -43,7 +49,7 @@ Transfer == /\ ~final
                  LET r == TransferTo(rel, dest) IN
                  /\ ~IsErr(r)
                  /\ rel' = r /\ hist' = Append(hist, [f |-> "xfer", dest |-> dest])
-            /\ UNCHANGED <<ei, ef, final>>
+            /\ UNCHANGED <<ei, ef, fk, final>>
 
 \* operations that keep a join identity a join identity (one row, no columns): they put operation
 \* nodes and a locked materialization between the identity leaf, the transfers and the final join
@@ -52,12 +58,12 @@ Mid == /\ ~final /\ Cardinality({i \in DOMAIN hist : hist[i].f # "xfer"}) < MaxM
             LET r == IF c.f = "mat" THEN Materialize(rel, c.name) ELSE ApplyUnary(c.op, rel, DefaultOpts) IN
             /\ ~IsErr(r) /\ r # rel
             /\ rel' = r /\ hist' = Append(hist, c)
-       /\ UNCHANGED <<ei, ef, final>>
+       /\ UNCHANGED <<ei, ef, fk, final>>
 
 JoinCalls == {[f |-> "pjoin", lhs |-> side, pref |-> p, backtrack |-> bt, transfer |-> tr] :
                  side \in BOOLEAN, p \in Engines \cup {"none"}, bt \in BOOLEAN, tr \in BOOLEAN}
 JoinResult(c, r) ==
-    ApplyUnary(IF c.lhs THEN PJoinL(LeafF(ef), PLit(TRUE)) ELSE PJoin(LeafF(ef), PLit(TRUE)), r,
+    ApplyUnary(IF c.lhs THEN PJoinL(Fixed, PLit(TRUE)) ELSE PJoin(Fixed, PLit(TRUE)), r,
                Opts(c.pref, c.backtrack, c.transfer, FALSE))
 
 FinalJoin == /\ ~final
@@ -66,19 +72,19 @@ FinalJoin == /\ ~final
                   /\ ~IsErr(r)
                   /\ rel' = r /\ hist' = Append(hist, c)
              /\ final' = TRUE
-             /\ UNCHANGED <<ei, ef>>
+             /\ UNCHANGED <<ei, ef, fk>>
 
 Next == Transfer \/ Mid \/ FinalJoin
 Spec == Init /\ [][Next]_vars
 
 WF == WellFormed(rel)
-Content == final => /\ Cols(rel) = {"a", "c"}
-                    /\ SameBag(Den(rel, Env), FRows)
+Content == final => /\ Cols(rel) = FixedCols
+                    /\ SameBag(Den(rel, Env), FixedRows)
 \* requests the model refuses in the current state (with the error class)
 Refused == IF final THEN {} ELSE {[call |-> c, err |-> JoinResult(c, rel).err] : c \in {x \in JoinCalls : IsErr(JoinResult(x, rel))}}
 
 EmitState ==
-    Emit => PrintT(<<"ST", ToJson([ei |-> ei, ef |-> ef, hist |-> hist, tree |-> rel, final |-> final,
-                                   rows |-> IF final THEN FRows ELSE << <<>> >>, refused |-> Refused,
+    Emit => PrintT(<<"ST", ToJson([ei |-> ei, ef |-> ef, fk |-> fk, hist |-> hist, tree |-> rel, final |-> final,
+                                   rows |-> IF final THEN FixedRows ELSE << <<>> >>, refused |-> Refused,
                                    fired |-> final])>>)
 =============================================================================
